@@ -5,6 +5,8 @@ use super::*;
 #[cfg(kani)]
 mod kani_harnesses {
     use super::*;
+    // concrete counterexamples printed by Kani are replayed natively from this file (normally empty; written by vx/kanirun.py)
+    include!("/verif/.cache/playback/metainfo.rs");
     // META/Metainfo::total_length (assumed in Verus: Iterator::sum): BOUNDED (<= 3 files): the sum of the lengths when it
     // fits u64 (what Metainfo::parse guarantees through total_length_fits)  (C03, C17)
     #[kani::proof]
